@@ -3,6 +3,7 @@ import Casket.Proofs.VHostStack
 import Casket.Generated.VHost
 import Casket.Spec.VHostAuto
 import Casket.Proofs.AutoHTTPSSites
+import Casket.Spec.VHostWire
 /-
 C01 — Virtual-host routing picks the most specific site, or none.
 
@@ -338,6 +339,79 @@ theorem C01_auto_managed_port_duplicate_witness :
       [{ addr := b!"a.com", tls := { base := .email } }, { addr := b!"a.com:443" }]
     let r : Req := ⟨[97, 46, 99, 111, 109], [47], 1⟩
     Casket.VHostAutoSpec.verdict blocks r (Casket.VHostAuto.autoRoute blocks [] b!"443" r) ≠ "ok" := by
+  decide
+
+/-! ### Paths with multi-byte UTF-8 characters, raw and percent-encoded on the wire (stream `c01.wire`) -/
+
+open Casket.VHostWire in
+theorem hexVal_hexDigit (n : Nat) (h : n < 16) : hexVal (hexDigit n) = some n := by
+  have key : ∀ m : Fin 16, hexVal (hexDigit m.val) = some m.val := by decide
+  exact key ⟨n, h⟩
+
+open Casket.VHostWire in
+theorem pctDecode_cons_ne (c : Nat) (rest : Bytes) (h : c ≠ cPct) :
+    pctDecode (c :: rest) = (pctDecode rest).map (fun t => c :: t) := by
+  conv => lhs; unfold pctDecode
+  simp only [h, if_false]
+
+open Casket.VHostWire in
+theorem pctDecode_pct (h l a b : Nat) (rest : Bytes) (ha : hexVal h = some a) (hb : hexVal l = some b) :
+    pctDecode (cPct :: h :: l :: rest) = (pctDecode rest).map (fun t => (16 * a + b) :: t) := by
+  conv => lhs; unfold pctDecode
+  simp only [if_true, ha, hb]
+
+open Casket.VHostWire in
+/-- Percent-encoding is undone by the model of `url.unescape`: whatever bytes a path consists of (multi-byte
+UTF-8 characters, `%`, `?`, space …), the encoded spelling decodes to exactly these bytes. -/
+theorem C01_wire_pct_roundtrip (p : Bytes) (hb : ∀ c ∈ p, c < 256) : pctDecode (pctEncode p) = some p := by
+  induction p with
+  | nil => rfl
+  | cons c rest ih =>
+    have ih' := ih (fun x hx => hb x (List.mem_cons_of_mem _ hx))
+    have hc : c < 256 := hb c (List.mem_cons_self ..)
+    by_cases hu : unreserved c = true
+    · have hne : c ≠ cPct := by
+        intro h
+        rw [h] at hu
+        exact absurd hu (by decide)
+      have he : pctEncode (c :: rest) = c :: pctEncode rest := by
+        rw [pctEncode]; simp [hu]
+      rw [he, pctDecode_cons_ne _ _ hne, ih']
+      rfl
+    · have h1 : c / 16 < 16 := by omega
+      have h2 : c % 16 < 16 := by omega
+      have h3 : 16 * (c / 16) + c % 16 = c := by omega
+      have he : pctEncode (c :: rest) = cPct :: hexDigit (c / 16) :: hexDigit (c % 16) :: pctEncode rest := by
+        rw [pctEncode]; simp [hu]
+      rw [he, pctDecode_pct _ _ _ _ _ (hexVal_hexDigit _ h1) (hexVal_hexDigit _ h2), ih', h3]
+      rfl
+
+/-- The judged predicate of `c01.wire`, total: for every site list, Host, request-target (raw bytes, percent
+escapes, broken escapes, a query) and protocol version the model's answer gets the verdict "ok". -/
+theorem C01_wire_model_verdict_ok (sites : List Site) (host target : Bytes) (pm : Nat) :
+    Casket.VHostWireSpec.verdict sites host pm (Casket.VHostWire.wireRoute sites host target pm) = "ok" := by
+  unfold Casket.VHostWire.wireRoute
+  cases Casket.VHostWire.targetPath target with
+  | none => rfl
+  | some p => exact C01_model_verdict_ok sites ⟨host, p, pm⟩
+
+/-- Sites `a.com` and `a.com/café` (é = bytes C3 A9): `GET /café/m` is served by the second one with prefix
+`/café`, whether the target arrives raw or as `/caf%C3%A9/m` … -/
+theorem C01_wire_non_ascii_path_example :
+    let sites : List Site := [⟨[97, 46, 99, 111, 109], false, []⟩, ⟨[97, 46, 99, 111, 109, 47, 99, 97, 102, 195, 169], false, []⟩]
+    let want := Casket.VHostWire.WireOutcome.routed [47, 99, 97, 102, 195, 169, 47, 109] (.site 1 [47, 99, 97, 102, 195, 169])
+    Casket.VHostWire.wireRoute sites [97, 46, 99, 111, 109] [47, 99, 97, 102, 195, 169, 47, 109] 1 = want ∧
+    Casket.VHostWire.wireRoute sites [97, 46, 99, 111, 109] [47, 99, 97, 102, 37, 67, 51, 37, 65, 57, 47, 109] 1 = want := by
+  decide
+
+set_option maxRecDepth 20000 in
+/-- … the case is inside the judged domain (only the HOST part of an address has to be ASCII), and an
+implementation that stops the path walk at the first multi-byte character — the shorter-prefix site `a.com`
+runs, or 404 when there is none — is judged bad. -/
+theorem C01_wire_non_ascii_path_is_judged :
+    let sites : List Site := [⟨[97, 46, 99, 111, 109], false, []⟩, ⟨[97, 46, 99, 111, 109, 47, 99, 97, 102, 195, 169], false, []⟩]
+    let r : Req := ⟨[97, 46, 99, 111, 109], [47, 99, 97, 102, 195, 169, 47, 109], 1⟩
+    judged sites r = true ∧ verdict sites r (.site 0 [47]) ≠ "ok" ∧ verdict (sites.drop 1) r (.notFound 404) ≠ "ok" := by
   decide
 
 /-- The catch-all hosts of the model are the ones in the source
